@@ -100,7 +100,9 @@ AddLimbs(a, n) ==
     IN << s0 % LB, s1 % LB, s2 % LB, s3 % LB, s4 >>
 \* strip trailing zero limbs / pad to 5 for comparison with logged digits
 Pad5(s) == [i \in 1..5 |-> IF i <= Len(s) THEN s[i] ELSE 0]
-DCount(d) == MulLimbs(Limbs3(DWidth(d)), Limbs3(DHeight(d)))
+\* limbs of n + 1 for 0 <= n < 2^31 (a full level-31 box is 2^31 wide: n + 1 itself does not fit TLC's integers)
+LimbsP1(n) == IF n = 2147483647 THEN <<0, 0, 2>> ELSE Limbs3(n + 1)
+DCount(d) == IF d = <<>> THEN <<0, 0, 0, 0, 0>> ELSE MulLimbs(LimbsP1(d[3] - d[1]), LimbsP1(d[4] - d[2]))
 \* row-major index of (x,y) in d
 DIndex(d, x, y) == AddLimbs(MulLimbs(Limbs3(y - d[2]), Limbs3(DWidth(d))), x - d[1])
 \* is the 5-limb number a < the 5-limb number b
